@@ -137,8 +137,6 @@ class Gen:
         macs = dict((m, k) for m, k, _ in SRC).get(mod, [])
         y = r.random()
         if mod == "hvs_pkg" and y < 0.8:
-            if depth > 0 and self.mode == "A":
-                return self.call()       # the local package path crashes at run time: kept to mode B
             ents = []
             for _ in range(r.randrange(1, 3)):
                 sub = r.choice(["sub1", "sub1", "sub2", "sub3", "nosub"] if r.random() < 0.3 else ["sub1", "sub2", "sub3"])
@@ -208,6 +206,33 @@ class Gen:
             inner = ("scope", r.choice(kinds), [self.call(n), d(), self.call(n), ("scope", r.choice(kinds), [self.call(n)])])
             outer = ("scope", r.choice(kinds), [d(), self.call(n), inner, self.call(n)])
             nest = ([d()] if r.random() < 0.5 else []) + [outer, self.call(n)]
+            k = r.randrange(len(forms) + 1)
+            forms[k:k] = nest
+        if r.random() < 0.35:
+            # :warn-on-core-shadow set at two or three nesting levels with different values, core-shadowing
+            # definitions and requires under each of them: the innermost enclosing setting decides
+            kinds = ["defn", "fn", "defclass", "lfor"]
+            b0 = r.random() < 0.5
+
+            def shadow():
+                x = r.random()
+                if x < 0.5:
+                    self.ndef += 1
+                    n = r.choice(["when", "cond", "assert"])
+                    self.defined.append(n)
+                    return ("def", n, self.ndef)
+                if x < 0.7:
+                    return ("req", "hvs_a", ("list", [("when", None)]))
+                if x < 0.85:
+                    return ("req", "hvs_b", ("list", [("mc", "cond")]))
+                return ("req", "hvs_a", ("star",))
+            deepest = ("scope", r.choice(kinds), ([("pragma", b0)] if r.random() < 0.5 else []) + [shadow()])
+            inner = ("scope", r.choice(kinds), [shadow()] if r.random() < 0.3 else [])
+            inner[2].extend([("pragma", not b0), shadow(), deepest, shadow()])
+            if r.random() < 0.6:
+                nest = [("pragma", b0), shadow(), inner, shadow()]
+            else:
+                nest = [("scope", r.choice(kinds), [("pragma", b0), shadow(), inner, shadow()]), shadow()]
             k = r.randrange(len(forms) + 1)
             forms[k:k] = nest
         # calls of each name at the end
@@ -654,6 +679,19 @@ CORPUS = [
         ("scope", "defn", [("req", "hvs_b", ("as", "A")), ("call", 1, "A.ma"), ("call", 2, "A.mc"), ("call", 3, "A._pc")]),
         ("req", "hvs_b", ("star",)), ("call", 4, "ma"), ("call", 5, "mc"), ("call", 6, "A.ma"),
         ("req", "hvs_a", ("bare",)), ("call", 7, "hvs_a._pa"), ("call", 8, "hvs_a.when")]},
+    {"mode": "B", "extra": [], "local_pkg": False, "forms": [
+        ("pragma", True),
+        ("scope", "defn", [("pragma", False), ("def", "when", 101), ("req", "hvs_b", ("list", [("mc", "cond")])),
+                           ("scope", "fn", [("def", "assert", 102)])]),
+        ("def", "when", 103),
+        ("pragma", False),
+        ("scope", "defclass", [("pragma", True), ("def", "cond", 104), ("scope", "lfor", [("req", "hvs_a", ("list", [("when", None)]))])]),
+        ("def", "assert", 105)]},
+    {"mode": "A", "extra": [], "local_pkg": False, "forms": [
+        ("pragma", False),
+        ("scope", "fn", [("pragma", True), ("def", "when", 101), ("scope", "defn", [("pragma", False), ("def", "cond", 102)]),
+                         ("def", "assert", 103)]),
+        ("def", "cond", 104)]},
     {"mode": "B", "extra": [], "local_pkg": True, "forms": [
         ("scope", "defn", [("req", "hvs_pkg", ("list", [("sub1", None)])), ("call", 1, "sub1.ma")]), ("call", 2, "sub1.ma")]},
 ]
@@ -674,7 +712,7 @@ def run(chk):
     chk.matchers["local-package-require-runtime-error"] = m_local_package
     chk.prove("Props/C35.v", ["Props/C35.vo", "MacroNS/LookupEncode.vo"], [macro_lookup.translate])
     thorough = chk.tier == "thorough"
-    n_hist = 6000 if thorough else 500
+    n_hist = 6000 if thorough else 400
     chk.rule = ("history = 2-7 generated top-level forms (defmacro / require in 5 shapes incl. package path and missing "
                 "names / pragma / call / failing form / scope of kind defn|fn|defclass|lfor nested to depth %d) over 12 "
                 "plain and the arising qualified names, 8 source modules on disk, optional hy.eval macros dict, then "
@@ -813,7 +851,7 @@ def judge(chk, h, model, recs, calls, pr, probes):
                 chk.fail(key, dict(inp, call=names[cid], id=cid, cause=prov), got, exp, how(h))
     # ---- probes with a fresh compiler (module macros persist, local ones do not)
     aborted_a = h["mode"] == "A" and any(r["abort"] for r in mrecs)
-    if not aborted_a and not (h["mode"] == "B" and any(has_local_pkg_require(f) for f in forms)):
+    if not aborted_a:
         if pr != mprobes:
             chk.disagree("module macros seen by a fresh compiler", dict(inp, probes=probes), mprobes, pr)
         env = [{"macros": {}, "warn": None}]
